@@ -26,6 +26,7 @@ type Violation struct {
 // Hooks are the property-specific oracles plugged into the generic executor.
 type Hooks struct {
 	AfterOpen    func(r *Run)
+	Refresh      func(r *Run) // bookkeeping from the files alone (no call on the log) after a reopen that is not observed
 	AfterStep    func(r *Run, op *Op)
 	OnPublish    func(r *Run, before int64, in []klevdb.Message, ret int64, err error)
 	OnDelete     func(r *Run, kind string, req []int64, before *Model, got []Msg, gotOffs []int64, size int64, err error)
@@ -270,6 +271,15 @@ func (r *Run) ExecOps() {
 			break
 		}
 		if r.H.AfterStep != nil && r.L != nil {
+			if (op.K == "reopen" || op.K == "kill") && i+1 < len(r.P.Ops) && r.Obs.Chance(35) {
+				// no look at the freshly opened log: the next operation meets it as Open left
+				// it (lazily loaded segments, index files still missing)
+				r.probe("reopen_unobserved")
+				if r.H.Refresh != nil {
+					r.H.Refresh(r)
+				}
+				continue
+			}
 			r.H.AfterStep(r, op)
 		}
 	}
